@@ -20,4 +20,12 @@ def run():
     if DEDUCTIVE:
         c.deductive(DEDUCTIVE)
     _pipeline.pipeline_part(c, "C02")
+    # a comment owns its whole line: the reader must not cut lines at VT / FF / NEL / LS ... (comments would lose their tail)
+    from bounded import corpus, readfile
+    from pyvc.checklib import Finding
+
+    total, why = readfile.exhaustive(3 if c.tier == "quick" else 5, corpus.pmap)
+    c.bounded["read_vhdlfile"] = {"evaluations": total, "distinct_nontrivial": total, "exhaustive": True, "rule": "every short string over line-separator-like characters written as UTF-8 / Latin-1 and read back by the real read_vhdlfile; expected = split at LF/CRLF/CR only"}
+    if why:
+        c.findings.append(Finding("bounded", "read_vhdlfile", why, {"function": "vsg.vhdlFile.utils.read_vhdlfile", "observed": why}, why[:60]))
     return c.finish({"explanation": META["text"]})
